@@ -208,11 +208,20 @@ def case_job(job):
                     stored[1] = stored[3] = [0, False]
                 elif kind == "cols":
                     stored[0] = stored[2] = [0, False]
-                node = make_node(model, ttb, kind, stored, host != target)
+                z = [0, False]
+                if kind == "rect" and (len(plan) + idx) % 2:
+                    # the other stored form of a rectangle (129 of the fixtures' 315 ranges): two cell references joined by a COLON_NODE,
+                    # each carrying the target table when it is not the host's
+                    nodes = [make_node(model, ttb, "cell", [stored[0], stored[1], z, z], host != target),
+                             make_node(model, ttb, "cell", [stored[2], stored[3], z, z], host != target), {"AST_node_type": "COLON_NODE"}]
+                    form = "colon"
+                else:
+                    nodes = [make_node(model, ttb, kind, stored, host != target)]
+                    form = "tract"
                 htb.write(hr, hc, 1.0)
-                key = model._formulas.lookup_key(htb._table_id, TSCE.FormulaArchive(**{"AST_node_array": {"AST_node": [node]}}))
+                key = model._formulas.lookup_key(htb._table_id, TSCE.FormulaArchive(**{"AST_node_array": {"AST_node": nodes}}))
                 htb.rows()[hr][hc]._formula_id = key
-                plan.append({"host": list(host), "target": list(target), "hr": hr, "hc": hc, "kind": kind, "ends": stored})
+                plan.append({"host": list(host), "target": list(target), "hr": hr, "hc": hc, "kind": kind, "ends": stored, "form": form})
     events = []
     path = os.path.join(scratch, "c09-%d-%d.numbers" % (os.getpid(), idx))
 
@@ -516,8 +525,10 @@ def judge(ctx, events, count=True):
         for tid, v in seen.items():
             if v != "ok":
                 e = part[tid - 1]
-                ctx.fail({"engine": "trace", "clause": v, "kind": e["kind"], "phase": e["phase"], "cross": e["host"] != e["target"], "exc": (e.get("exc") or "").split(":")[0]},
-                         "namespace %s host %s cell (%d,%d) -> target %s stored %s %s prints %r (%s)" % (json.dumps(e["ns"]), e["host"], e["hr"], e["hc"], e["target"], e["kind"],
+                ctx.fail({"engine": "trace", "clause": v, "kind": e["kind"], "form": e.get("form", "tract"), "phase": e["phase"], "cross": e["host"] != e["target"],
+                          "exc": (e.get("exc") or "").split(":")[0]},
+                         "namespace %s host %s cell (%d,%d) -> target %s stored %s%s %s prints %r (%s)" % (json.dumps(e["ns"]), e["host"], e["hr"], e["hc"], e["target"], e["kind"],
+                                                                                                       " (two cell references joined by a COLON_NODE)" if e.get("form") == "colon" else "",
                                                                                                      json.dumps(e["ends"]), e["text"], e["phase"]),
                          {k: e[k] for k in ("ns", "host", "target", "hr", "hc", "kind", "ends")})
 
